@@ -2,7 +2,10 @@ package catalog
 
 import (
 	"encoding/json"
+	"errors"
+	"regexp/syntax"
 	"sync"
+	"unicode"
 
 	"github.com/jsightapi/jsight-schema-core/bytes"
 	"github.com/jsightapi/jsight-schema-core/notations/regex"
@@ -65,6 +68,73 @@ func (e ExchangeRegexSchema) MarshalJSON() ([]byte, error) {
 
 func (e ExchangeRegexSchema) Notation() notation.SchemaNotation {
 	return notation.SchemaNotationRegex
+}
+
+// CheckExample checks that an example of the regular expression can be generated.
+func (e ExchangeRegexSchema) CheckExample() error {
+	pattern, err := e.Pattern()
+	if err != nil {
+		return nil // an invalid regular expression is reported by the Check method
+	}
+	return RegexExampleError(pattern)
+}
+
+// printableChars are the characters the example generator of the
+// jsight-schema-core (the reggen package) chooses from for the character
+// classes which reach the end of the Unicode range.
+const printableChars = "0123456789abcdefghijklmnopqrstuvwxyzABCDEFGHIJKLMNOPQRSTUVWXYZ" +
+	"!\"#$%&'()*+,-./:;<=>?@[\\]^_`{|}~ \t\n\r"
+
+// RegexExampleError returns an error if the regular expression contains a
+// character class for which the example generator of the jsight-schema-core has
+// nothing to choose from (the class is empty, i.e. "[^\x00-\x{10FFFF}]", or it
+// reaches the end of the Unicode range without any printable character): the
+// generator panics on such a class, in the build or in the serialization, when
+// (and only when) its random walk comes to that class.
+func RegexExampleError(pattern string) error {
+	re, err := syntax.Parse(pattern, syntax.Perl)
+	if err != nil {
+		return nil // reported by the Check method
+	}
+	if regexHasUnusableClass(re) {
+		return errors.New("an example of the regular expression cannot be generated: it has a character class which matches nothing usable") //nolint:lll
+	}
+	return nil
+}
+
+func regexHasUnusableClass(re *syntax.Regexp) bool {
+	if re.Op == syntax.OpCharClass {
+		sum := 0
+		for i := 0; i+1 < len(re.Rune); i += 2 {
+			sum += int(re.Rune[i+1]-re.Rune[i]) + 1
+			if re.Rune[i+1] == unicode.MaxRune {
+				sum = -1
+				break
+			}
+		}
+		switch {
+		case sum == 0:
+			return true
+		case sum == -1:
+			usable := false
+			for _, c := range printableChars {
+				for i := 0; i+1 < len(re.Rune); i += 2 {
+					if c >= re.Rune[i] && c <= re.Rune[i+1] {
+						usable = true
+					}
+				}
+			}
+			if !usable {
+				return true
+			}
+		}
+	}
+	for _, sub := range re.Sub {
+		if regexHasUnusableClass(sub) {
+			return true
+		}
+	}
+	return false
 }
 
 func NewExchangeRegexSchema(regexStr bytes.Bytes) (*ExchangeRegexSchema, error) {
